@@ -453,6 +453,137 @@ def bounds(vars_):
   return cs
 
 
+def chain_scenario(kind, qk=None, qmv=None):
+  """Non-MAC branches of generate_layer_data_type_map on small graphs.
+  'activation': SOURCE -> QActivation(q) -> SINK: every value q emits fits the output type reported for the layer, and
+                that type is what the outgoing edge carries.
+  'passthrough': SOURCE -> Flatten -> SINK: the reported output type holds every input value; edge carries it.
+  'merge': SOURCE -> QActivation(qa), QActivation(qb) -> Add -> SINK: the merge operator is built from the two
+           incoming edge types in order, its output is the layer's output type and the edge's (the arithmetic of the
+           merge operator itself is property C17)."""
+  def scenario(ip):
+    s = Scen()
+    gm = ip.load_source("c18_graph_stub", GRAPH_STUB)
+    g = ip.call(gm.env.vars["DiGraph"], [], {})
+    add_node, add_edge = ip.getattr(g, "add_node"), ip.getattr(g, "add_edge")
+    node = lambda i, layer, t: ip.call(add_node, [i], {"layer": [layer], "type": [t], "out_quantizer": None})
+    edge = lambda u, v, shape, q: ip.call(add_edge, [u, v], {"shape": shape, "tensor": "t_%s_%s" % (u, v), "quantizer": q})
+    xq, _, xl = Q.make_qkeras(ip, s, "x", "qbits", None)
+    ip.assume(s.vars["x_bits"] - s.vars["x_signed"] >= 1)
+    shp = (None, 8)
+    mk_act = lambda name, q: Obj(ExtClass("QActivation"), {"name": name, "quantizer": q, "output_shape": shp,
+                                                           "get_weights": Builtin("get_weights", lambda ip_: [])}, label=name)
+    ip.setattr(ip.get_module("qkeras.qtools.qtools_util"), "get_operation_count",
+               Builtin("get_operation_count", lambda ip_, l, shp_: 0))
+    mod = ip.get_module("qkeras.qtools.generate_layer_data_type_map")
+    node(-1, None, None)
+    node(-2, None, None)
+    lats = {}
+    if kind == "activation":
+      q, _, lat = Q.make_qkeras(ip, s, "a", qk, qmv)
+      if qk == "qbits":
+        ip.assume(s.vars["a_bits"] - s.vars["a_signed"] >= 1)
+      layer = mk_act("act0", q)
+      node(0, layer, "QActivation")
+      edge(-1, 0, shp, xq)
+      edge(0, -2, None, None)
+      last = 0
+    elif kind == "passthrough":
+      layer = Obj(ExtClass("Flatten"), {"name": "flat0", "output_shape": shp,
+                                        "get_weights": Builtin("get_weights", lambda ip_: [])}, label="flat0")
+      node(0, layer, "Flatten")
+      edge(-1, 0, shp, xq)
+      edge(0, -2, None, None)
+      last = 0
+    else:
+      qa, _, la = Q.make_qkeras(ip, s, "a", "qbits", None)
+      qb, _, lb = Q.make_qkeras(ip, s, "b", "qrelu", None)
+      ip.assume(s.vars["a_bits"] - s.vars["a_signed"] >= 1)
+      a0, a1 = mk_act("act_a", qa), mk_act("act_b", qb)
+      layer = Obj(ExtClass("Add"), {"name": "add0", "output_shape": shp,
+                                    "get_weights": Builtin("get_weights", lambda ip_: [])}, label="add0")
+      node(0, a0, "QActivation")
+      node(1, a1, "QActivation")
+      node(2, layer, "Add")
+      edge(-1, 0, shp, xq)
+      edge(-1, 1, shp, xq)
+      edge(0, 2, shp, None)
+      edge(1, 2, shp, None)
+      edge(2, -2, None, None)
+      last = 2
+    spied = []
+    key = "qkeras.qtools.quantized_operators.merge_factory::MergeFactory.make_quantizer"
+
+    def spy(ip_, fv, a, k):
+      del ip_.overrides[key]
+      try:
+        out = ip_.call_func(fv, a, k)
+      finally:
+        ip_.overrides[key] = spy
+      spied.append((list(a), out))
+      return out
+    ip.overrides[key] = spy
+    s.replay = {"kind": kind, "qk": qk, "qmv": qmv}
+    r = run_call(ip, mod.env.vars["generate_layer_data_type_map"], [g, [], False])
+    s.claim("no_raise", r[0] == "return")
+    if r[0] != "return":
+      s.info["raised"] = str(r[1])
+      return s
+    lmap = r[1]["layer_data_type_map"]
+    s.claim("entry", layer in lmap)
+    if layer not in lmap:
+      return s
+    ent = lmap[layer]
+    get = (lambda k: ent[k]) if isinstance(ent, dict) else (lambda k: ip.getattr(ent, k))
+    outq = get("output_quantizer")
+    edge_q = ip.getitem(ip.getitem(ip.getattr(g, "adj"), last), -2)["quantizer"]
+    # the edge carries what the branch hands to update_output_quantizer_in_graph (the layer's own quantizer / the input
+    # type / the merge operator's output); the successor converts it with the same factory
+    if kind == "activation":
+      s.claim("out_edge", edge_q is q)
+    elif kind == "passthrough":
+      s.claim("out_edge", edge_q is get("input_quantizer_list")[0])
+
+    def covers(name, lat, t, pfx):
+      tl = Q.type_lattice(ip, t, s)
+      if tl.kind == "float":
+        s.claim(name, False)
+        return
+      el = S.element(lat, pfx)
+      s.vars.update(el.names)
+      goal, hints = S.fits(el.mant, el.ex, tl)
+      s.hints.extend(hints)
+      s.claim(name, z3.Implies(z3.And(*el.cs), goal))
+    if kind == "activation":
+      covers("activation_fits", lat, outq, "ca")
+      covers("input_fits", xl, get("input_quantizer_list")[0], "cx")
+    elif kind == "passthrough":
+      covers("output_holds_input", xl, outq, "cx")
+    else:
+      ea, eb = lmap[a0], lmap[a1]
+      ga = (lambda e, k: e[k]) if isinstance(ea, dict) else (lambda e, k: ip.getattr(e, k))
+      oa, ob = ga(ea, "output_quantizer"), ga(eb, "output_quantizer")
+      covers("operand_a_fits", la, oa, "ca")
+      covers("operand_b_fits", lb, ob, "cb")
+      ok = len(spied) == 1
+      if ok:
+        args, out = spied[0]
+        ins = [x[0] if isinstance(x, (tuple, list)) else x for x in args[1]]
+        mo = ip.getattr(out, "output")
+        zi = lambda v: v.e if isinstance(v, SNum) else z3.IntVal(int(v))
+        same = lambda t1, t2: z3.And(*[zi(ip.getattr(t1, f_)) == zi(ip.getattr(t2, f_)) for f_ in ("bits", "int_bits", "is_signed")])
+        # the two operands are of the types reported for the two producers; the layer's output type is the operator's
+        if len(ins) == 2 and args[2] == "Add" and get("multiplier") is out and edge_q is mo:
+          ok = z3.And(z3.Or(z3.And(same(ins[0], oa), same(ins[1], ob)), z3.And(same(ins[0], ob), same(ins[1], oa))),
+                      same(outq, mo))
+        else:
+          ok = False
+      s.claim("merge_built_from_edges", ok)
+      s.claim("merge_inputs_listed", len(get("input_quantizer_list")) == 2)
+    return s
+  return scenario
+
+
 def cases(tier):
   out = []
   combos = []
@@ -479,6 +610,14 @@ def cases(tier):
           continue
         out.append(Case(PROP, GM, "%s_auto-po2-kernel_x_%s_bias-%s" % (lt, xk, bk or "none"), fused_scenario(lt, xk, bk),
                         bounds=bounds, replay_kind="c18_fused", assumptions=ASSUME))
+  for qk, qmv in (("qbits", None), ("qrelu", None), ("po2", "none"), ("relu_po2", "none"), ("binary", None),
+                  ("ternary", None)):
+    out.append(Case(PROP, GM, "QActivation_%s" % qk, chain_scenario("activation", qk, qmv), bounds=bounds,
+                    replay_kind="c18_chain", assumptions=ASSUME))
+  out.append(Case(PROP, GM, "Flatten_passthrough", chain_scenario("passthrough"), bounds=bounds, replay_kind="c18_chain",
+                  assumptions=ASSUME))
+  out.append(Case(PROP, GM, "Add_of_two_activations", chain_scenario("merge"), bounds=bounds, replay_kind="c18_chain",
+                  assumptions=ASSUME + ["the merge operator's own arithmetic is property C17"]))
   out.extend(analyze_cases(tier))
   return out
 
